@@ -76,7 +76,7 @@ prop("C06", "TestC06", "exploration",
      "validity predicate (sorted within 1e-9, no omitted target closer than the last returned, exact tie-breaks for bit-identical tuples).",
      "Oracle distances are the C07 definitions; completeness is 12/|set| per symbol as documented. Undefined-distance targets may follow defined ones but never take their slots.",
      "property-based testing (rapid) against a reference total order / validity predicate",
-     "one case in 8 uses block-sized widths (64, 65, 127, 128, ... 320) with unit-periodic targets wrapped at 60..80 columns and long masked stretches in the query; 1 in 20 also runs the binary incl. -d as a command-line string; 1..3 queries, 1..12 (one third of cases 13..48, mostly exact copies) targets of width 6..30 derived from one balanced base; non-trivial = tie at the K boundary, completeness "
+     "one case in 4 names the queries after target records; one case in 8 uses block-sized widths (64, 65, 127, 128, ... 320) with unit-periodic targets wrapped at 60..80 columns and long masked stretches in the query; 1 in 20 also runs the binary incl. -d as a command-line string; 1..3 queries, 1..12 (one third of cases 13..48, mostly exact copies) targets of width 6..30 derived from one balanced base; non-trivial = tie at the K boundary, completeness "
      "tie-break inside the list, or an undefined-distance target present; distinct = hash of the case",
      q, t, need_bin=True, required_labels=["tie-at-boundary", "boundary-tie-broken-by-completeness", "boundary-tie-broken-by-file-order", "undefined-target-present", "mode:plain", "mode:n", "mode:d", "mode:nd", "table", "targets>12"])
 
